@@ -39,7 +39,9 @@ func H19Split() {
 	n := vndParam("len")
 	q := vndBytes("q", n)
 	for _, c := range q {
-		vndAssume(vndOr(vndOr(c == 'a', c == ' '), vndOr(vndOr(c == '\t', c == '\\'), vndOr(c == '"', c == ':'))))
+		// '\f', newline and the two bytes of U+00A0 are other white space: no word separators
+		vndAssume(vndOr(vndOr(vndOr(c == 'a', c == ' '), vndOr(vndOr(c == '\t', c == '\\'), vndOr(c == '"', c == ':'))),
+			vndOr(vndOr(c == '\f', c == '\n'), vndOr(c == 0xc2, c == 0xa0))))
 	}
 	got := SplitWords(string(q))
 	want := h19RefSplit(q)
